@@ -307,6 +307,80 @@ fn g_unknown_fault(src: &mut Src, obs: &mut Obs) -> CaseResult {
 }
 pub const G_UNKNOWN_FAULT: Gen = Gen { name: "c04_unknown_fault", f: g_unknown_fault };
 
+/// COSE keys with additional entries. The COSE key parser of the dependency stops at the first
+/// label it does not know WITHOUT reading that entry's value, so a key whose map head announces
+/// more entries than kty/alg/crv/x/y leaves bytes behind that nothing has looked at: a complete
+/// extra entry, several, only a label, or a label followed by a truncated value - as the last
+/// thing in the message (clientPIN keyAgreement, hmac-secret keyAgreement) or followed by more.
+/// words: [host, extra shape, label, followed-by-more, values...]
+fn g_cose_tail(src: &mut Src, obs: &mut Obs) -> CaseResult {
+    let x = src.bytes(32);
+    let y = src.bytes(32);
+    let n_extra = 1 + src.below(3);
+    let mut key = vec![0xA0 | (5 + n_extra as u8), 0x01, 0x02, 0x03, 0x38, 0x18, 0x20, 0x01, 0x21, 0x58, 0x20];
+    key.extend_from_slice(&x);
+    key.extend_from_slice(&[0x22, 0x58, 0x20]);
+    key.extend_from_slice(&y);
+    let shape = src.below(5);
+    for i in 0..n_extra {
+        let label: u8 = *src.pick(&[0x04u8, 0x05, 0x23, 0x24, 0x00, 0x17, 0x61]);
+        key.push(label);
+        if label == 0x61 {
+            key.push(b'k');
+        }
+        let last = i + 1 == n_extra;
+        match (shape, last) {
+            (0, true) => {}                                       // only a label
+            (1, true) => key.extend_from_slice(&[0x58, 0x20, 1, 2, 3]), // value cut short
+            (2, true) => key.push(0x1C),                          // reserved head as value
+            _ => key.extend_from_slice(&[0x42, 0xAB, 0xCD]),     // a complete value
+        }
+    }
+    let host = src.below(2);
+    let more = src.bool();
+    let mut msg: Vec<u8>;
+    if host == 0 {
+        // clientPIN: subCommand getKeyAgreement.. with keyAgreement (0x03); optionally pinAuth (0x04) after it
+        let sub = *src.pick(&[2u8, 5, 3, 9]);
+        msg = vec![0x06, if more { 0xA4 } else { 0xA3 }, 0x01, 0x01, 0x02, sub, 0x03];
+        msg.extend_from_slice(&key);
+        if more {
+            msg.extend_from_slice(&[0x04, 0x42, 0x01, 0x02]);
+        }
+    } else {
+        // getAssertion with the hmac-secret extension: {1: rpId, 2: hash, 4: {"hmac-secret": {1: key, 2: saltEnc, 3: saltAuth}}}
+        msg = vec![0x02, if more { 0xA4 } else { 0xA3 }, 0x01, 0x61, b'a', 0x02, 0x58, 0x20];
+        msg.extend_from_slice(&[7u8; 32]);
+        msg.extend_from_slice(&[0x04, 0xA1, 0x6B]);
+        msg.extend_from_slice(b"hmac-secret");
+        // keyAgreement placed LAST inside the hmac-secret map (legal, not canonical) or first
+        let key_last = src.bool();
+        msg.push(0xA3);
+        if !key_last {
+            msg.push(0x01);
+            msg.extend_from_slice(&key);
+        }
+        msg.extend_from_slice(&[0x02, 0x58, 0x20]);
+        msg.extend_from_slice(&[9u8; 32]);
+        msg.extend_from_slice(&[0x03, 0x50]);
+        msg.extend_from_slice(&[8u8; 16]);
+        if key_last {
+            msg.push(0x01);
+            msg.extend_from_slice(&key);
+        }
+        if more {
+            msg.extend_from_slice(&[0x05, 0xA1, 0x62, b'u', b'p', 0xF5]);
+        }
+    }
+    obs.label("cose-key-with-extra-entries");
+    obs.labelf(format!("cose-tail:shape{}", shape));
+    let st = check_input(&msg, obs)?;
+    label_outcome(obs, st);
+    nontrivial_rule(&msg, obs);
+    Ok(())
+}
+pub const G_COSE_TAIL: Gen = Gen { name: "c04_cose_tail", f: g_cose_tail };
+
 /// byte offset just after the head with pre-order index `idx` in the shortest-form encoding
 fn head_end_offset(v: &Value, idx: usize) -> usize {
     // encode with the head made indefinite is not suitable; instead encode a marker: re-encode with
@@ -368,10 +442,10 @@ pub const G_TYPES: Gen = Gen { name: "c04_types", f: g_types };
 pub const G_CONCRETE: Gen = Gen { name: "c04_concrete", f: g_concrete };
 
 pub fn gens() -> Vec<Gen> {
-    vec![G_SHORT, G_MUTATE, G_DEEP, G_LIE, G_UNKNOWN_FAULT, G_TYPES, G_CONCRETE]
+    vec![G_SHORT, G_MUTATE, G_DEEP, G_LIE, G_UNKNOWN_FAULT, G_COSE_TAIL, G_TYPES, G_CONCRETE]
 }
 
-pub const RULE: &str = "(a) exhaustive: every byte string of length 0..3 (16 843 009 inputs) and, in the thorough tier, every 4-byte input whose first byte is a parameter-bearing command (quick: a 2^21 stride sample of them); (b) proptest: a valid message for a random command from the C01 generator, then 1-3 mutations from {grow a string/list/map across capacity boundaries up to the 7609-byte budget, push an integer past its range (255..2^64-1, negative), replace a node by another type, wrap a node in up to 7500 nesting levels, duplicate/drop a map entry, corrupt UTF-8, insert an unknown member with deep nesting, re-encode a head non-minimally or indefinite, byte flip/insert/delete/splice/truncate/special byte}; (c') every container/string head of a valid message in turn announcing 2^16-1 / 2^31-1 / 2^32-1 / n+1000 items while the data is unchanged or cut right after the head; (c'') a well-formed request with one unknown member in a nested map whose value has, head by head, a reserved additional-information value / a wider-than-needed head / the indefinite form / a lying length (the decoder's value skipper has its own error paths); (c) nesting depth ladders up to 7590 levels inside an unknown option, truncated at 7609 bytes; (d) mutated encodings of every stand-alone decodable public type through cbor_deserialize::<T>. Oracle: the call returns (a panic is caught and is a violation; an abort/stack overflow kills the worker and is reproduced in journal mode), an error status is one of 0x01/0x12/0x14, and decoding the same bytes at another address/alignment gives an equal result. Built with debug assertions and overflow checks; decoding runs on an 8 MiB stack. Non-trivial: first byte is a parameter-bearing command and the payload starts with a map header followed by at least one byte; distinct by input bytes.";
+pub const RULE: &str = "(a) exhaustive: every byte string of length 0..3 (16 843 009 inputs) and, in the thorough tier, every 4-byte input whose first byte is a parameter-bearing command (quick: a 2^21 stride sample of them); (b) proptest: a valid message for a random command from the C01 generator, then 1-3 mutations from {grow a string/list/map across capacity boundaries up to the 7609-byte budget, push an integer past its range (255..2^64-1, negative), replace a node by another type, wrap a node in up to 7500 nesting levels, duplicate/drop a map entry, corrupt UTF-8, insert an unknown member with deep nesting, re-encode a head non-minimally or indefinite, byte flip/insert/delete/splice/truncate/special byte}; (c') every container/string head of a valid message in turn announcing 2^16-1 / 2^31-1 / 2^32-1 / n+1000 items while the data is unchanged or cut right after the head; (c'') a well-formed request with one unknown member in a nested map whose value has, head by head, a reserved additional-information value / a wider-than-needed head / the indefinite form / a lying length (the decoder's value skipper has its own error paths); (c''') COSE keys (clientPIN keyAgreement, hmac-secret keyAgreement) whose map announces 1-3 entries beyond kty/alg/crv/x/y - complete, label only, label with a cut or reserved-head value - as the last item of the message or followed by further members (the dependency's key parser stops at the first unknown label without reading its value); (c) nesting depth ladders up to 7590 levels inside an unknown option, truncated at 7609 bytes; (d) mutated encodings of every stand-alone decodable public type through cbor_deserialize::<T>. Oracle: the call returns (a panic is caught and is a violation; an abort/stack overflow kills the worker and is reproduced in journal mode), an error status is one of 0x01/0x12/0x14, and decoding the same bytes at another address/alignment gives an equal result. Built with debug assertions and overflow checks; decoding runs on an 8 MiB stack. Non-trivial: first byte is a parameter-bearing command and the payload starts with a map header followed by at least one byte; distinct by input bytes.";
 pub const ASSUMPTIONS: &[&str] = &[
     "non-termination is only observable as a watchdog hit (reported as inconclusive, exit 2)",
     "stack exhaustion is judged against an 8 MiB stack",
@@ -404,6 +478,7 @@ pub fn run(ctx: &mut Ctx) {
     }
     ctx.random(&G_MUTATE, &[], ctx.t(120_000, 6_000_000), 1400);
     ctx.random(&G_DEEP, &[], ctx.t(3_000, 60_000), 700);
+    ctx.random(&G_COSE_TAIL, &[], ctx.t(4_000, 100_000), 120);
     for (ci, _) in PARAM_CMDS.iter().enumerate() {
         let nbits = top_bits(PARAM_CMDS[ci]) + nested_bits(PARAM_CMDS[ci]);
         // the full message (every member present) and free messages
@@ -422,7 +497,7 @@ pub fn run(ctx: &mut Ctx) {
         "short:len0", "short:len1", "short:len2", "short:len3", "short:len4", "outcome:accepted", "outcome:0x01",
         "outcome:0x12", "outcome:0x14", "mut:grow-bytes", "mut:grow-text", "mut:grow-array", "mut:int-range",
         "mut:type-replace", "mut:nest:>64", "mut:dup-entry", "mut:corrupt-utf8", "mut:unknown-deep:>64", "mut:head:Wider",
-        "mut:head:Indefinite", "mut:head:Lie", "mut:head:Reserved", "unknown-fault:Reserved", "unknown-fault:Wider", "mut:byte:flip", "mut:byte:insert", "mut:byte:delete", "mut:byte:splice", "mut:byte:truncate", "mut:byte:append",
+        "mut:head:Indefinite", "mut:head:Lie", "mut:head:Reserved", "unknown-fault:Reserved", "unknown-fault:Wider", "cose-key-with-extra-entries", "cose-tail:shape0", "mut:byte:flip", "mut:byte:insert", "mut:byte:delete", "mut:byte:splice", "mut:byte:truncate", "mut:byte:append",
         "length-lie", "lie:major2", "lie:major3", "lie:major4", "lie:major5", "deep:>64", "deep:>=7000", "deep:truncated-at-7609", "len>1024",
     ]);
 }
